@@ -44,6 +44,16 @@ def build_objs(workdir):
 
 
 def value_of(info, name):
+    if name.startswith('*'):          # '*ptr.a.b': member a.b of the object the pointer variable first pointed to
+        ptr, _, rest = name[1:].partition('.')
+        obj = None
+        for e in info.get('counterexample') or []:
+            if e['lhs'] == ptr and str(e['first']).startswith('dynamic_object'):
+                obj = str(e['first'])
+                break
+        if obj is None:
+            return None
+        name = obj + '.' + rest
     for e in info.get('counterexample') or []:
         if e['lhs'] == name:
             if e.get('first_bits') and len(e['first_bits']) == 64:
